@@ -112,5 +112,10 @@ field("_prefix", Str)
 # ---------------------------------------------------------------- plug-in ast nodes
 field("cpp_name", Str)
 field("include_files", TList(Str))
-field("cpp_return_type", Ref)   # FunctionAST.cpp_return_type: whatever the table stored (a terminal object)
+field("cpp_return_type", PyU)   # FunctionAST.cpp_return_type: a terminal object (function table) or a type name (ad-hoc nodes)
 field("fields", TList(Ref))
+
+# ---------------------------------------------------------------- math-function table (common/cpp_functions.py)
+CPPFunction = record(P + "cpp_functions.cpp_function",
+                     TRec("cpp_function", [("cpp_name", Str), ("include_files", TList(Str)), ("cpp_return_type", RefOf(T))]))
+glob(P + "cpp_functions.functions_to_replace", TDict(Str, CPPFunction))
